@@ -318,4 +318,12 @@ def rule_paths(ck):
                 o.ok('filtered events computed on every path to this return')
 
 
-RULES = [rule_operators, rule_narrowing, rule_datetime, rule_effects, rule_spatial, rule_load, rule_paths]
+def rule_region_mask(ck):
+    """filter_spatial relies on region.get_masked flagging exactly the points outside the region (shared C01-D3/D4)."""
+    from . import c01
+    ck.clause('D5 (shared C01-D3/D4: get_masked flags out-of-box and masked cells)')
+    c01.rule_sentinel(ck)
+    c01.rule_mask_polarity(ck)
+
+
+RULES = [rule_operators, rule_narrowing, rule_datetime, rule_effects, rule_spatial, rule_load, rule_paths, rule_region_mask]
